@@ -20,7 +20,7 @@ import time
 
 from .. import common, pool
 from ..rat import f
-from ..build import build
+from ..build import build, scale_time
 
 PROP = "C05"
 CONVENTIONS = ["time-then-select,u", "time-then-select,1-u", "select-then-time,u", "select-then-time,1-u"]
@@ -49,8 +49,12 @@ def impl_replay(job):
     from bioscrape.simulator import ModelCSimInterface, SafeModelCSimInterface, SSASimulator, py_simulate_model
     import bioscrape.random as brandom
     out = []
-    for rec in job["recs"]:
-        tp = np.array([f(t) for t in rec["tp"]])
+    for n_rec, rec in enumerate(job["recs"]):
+        # every second behaviour in another time unit (build.scale_time): non-dyadic grids, same rows, same draws
+        tsc = 5 if n_rec % 2 == 1 else 1
+        if tsc != 1:
+            rec = dict(rec, prog=scale_time(rec["prog"], tsc))
+        tp = np.array([f(t) / tsc for t in rec["tp"]])
         uniform = len({round(tp[i + 1] - tp[i], 12) for i in range(len(tp) - 1)}) == 1
         res = {"ok": True}
         try:
